@@ -9,6 +9,7 @@ replay live in thr_model.py.
 import json
 import os
 import re
+import signal
 import subprocess
 import time
 
@@ -28,6 +29,14 @@ C05_RULES = {
 
 def rule_property(rule):
     return "C05" if rule in C05_RULES else "C06"
+
+
+class HangBudget(Exception):
+    """Raised by run_probe when enough runs of this check already ended in a hang of the code under
+    test: every further run would cost a full time-out again.  The check judges what it has."""
+
+
+MAX_HANGS = 3
 
 
 class Run:
@@ -111,17 +120,29 @@ def run_probe(chk, bindir, name, script, strace=False, inject=None, timeout=120,
     if cpus:
         # confine the whole process (and the tracer) to a CPU set: preemption-driven interleavings
         cmd = ["taskset", "-c", cpus] + cmd
+    if getattr(chk, "hangs", 0) >= MAX_HANGS:
+        raise HangBudget("%d runs ended in a hang" % chk.hangs)
     r = Run(name)
     r.script = script
     r.inject = inject
     r.cpus = cpus
     t0 = time.time()
+    # own session: a hung probe (threads possibly in uninterruptible waits) is killed as a whole
+    # process group, and never waited for without a deadline
+    p = subprocess.Popen(cmd, stdout=subprocess.DEVNULL, stderr=subprocess.DEVNULL, start_new_session=True)
     try:
-        p = subprocess.run(cmd, stdout=subprocess.PIPE, stderr=subprocess.PIPE, timeout=timeout)
-        r.rc = p.returncode
+        r.rc = p.wait(timeout=timeout)
     except subprocess.TimeoutExpired:
         r.killed = True
         r.rc = -9
+        try:
+            os.killpg(p.pid, signal.SIGKILL)
+        except OSError:
+            pass
+        try:
+            p.wait(timeout=5)
+        except subprocess.TimeoutExpired:
+            core.log("probe %s (pid %d) cannot be reaped after SIGKILL: abandoned" % (name, p.pid))
     r.wall = time.time() - t0
     if not os.path.exists(op):
         raise core.ToolError("probe produced no output file for run %s (rc=%s)" % (name, r.rc))
@@ -141,6 +162,9 @@ def run_probe(chk, bindir, name, script, strace=False, inject=None, timeout=120,
         if not os.path.exists(tp):
             raise core.ToolError("strace produced no log for run " + name)
         r.strace = parse_strace(tp)
+    stuck = sum(1 for e in evs if e["ev"] == "diverge" and "in time" in e.get("why", ""))
+    if r.killed or any(e["ev"] == "timeout" for e in evs) or stuck >= 2:
+        chk.hangs = getattr(chk, "hangs", 0) + 1
     return r
 
 
